@@ -2,7 +2,7 @@ SPEC = {
     'id': 'C17',
     'harness': 'hC17',
     'coq_dir': 'C17',
-    'claimed': False,
+    'claimed': True,
     'theorems': ['C17_created_group_chained', 'C17_created_group_checks_partial', 'C17_created_fee_sufficient', 'C17_created_group_passes_partial', 'C17_created_group_checks_refuted',
                  'C17_same_header_same_content', 'C17_member_first_detected', 'C17_tamper_detected_partial', 'C17_tamper_detected_refuted',
                  'C17_fee_rules', 'C17_fee_sum_exact', 'C17_decode_txs_encode', 'C17_tx_path_equiv',
